@@ -164,3 +164,10 @@ func vUnshare()       {}
 
 // vGuard declares that *field is protected by *mutex (lockset monitor of the engine); natively a no-op.
 func vGuard(field any, mutex any) {}
+
+// vGuardMap declares that map m is protected by *mutex (lockset monitor); natively a no-op.
+func vGuardMap(m any, mutex any) {}
+
+// vShareGlobals marks every package-level variable (and what it reaches) as shared state that the code under
+// test must not write outside locks / atomics (effect monitor); natively a no-op.
+func vShareGlobals() {}
